@@ -496,6 +496,9 @@ def plan(tier, seed):
     for i in range(6):
         specs.append(dict(name="announcements-%d" % i, kind="announce", n=1500 if tier == "quick" else 40000))
     specs.append(dict(name="varying-window", kind="vwindow", n=400 if tier == "quick" else 6000))
+    # once more with the library's debug tracing switched on
+    specs.append(dict(name="tracing-random", kind="random", n=400 if tier == "quick" else 6000, tracing=True))
+    specs.append(dict(name="tracing-announcements", kind="announce", n=250 if tier == "quick" else 6000, tracing=True))
     return specs
 
 
